@@ -6,8 +6,8 @@ CONSTANTS
   MaxRefuse = 2
   MaxFeed = 1
   MaxEof = 1
-  SlowSet = {"C", "D", "X"}
-  CfgWrite = FALSE
+  SlowSet = {}
+  CfgWrite = TRUE
 INVARIANT MonitorQuiet
 INVARIANT OneReceivePath
 INVARIANT LockDiscipline
